@@ -2,6 +2,7 @@ import OmbottModel.Model.QsSpec
 import OmbottModel.Lemmas.QsScan
 import OmbottModel.Lemmas.QsDict
 import OmbottModel.Props.EnvCache
+import OmbottModel.Lemmas.HelpersForms
 /-!
 C18 — Query strings and urlencoded forms decode to exactly what was sent.
 Property theorems only; helper lemmas live in `Lemmas/{Utf8,QsQuote,QsScan,QsDict}.lean`.
@@ -176,3 +177,129 @@ example : ∀ op ∈ [Op.read 0 .params, .setStr 0 kQS cs!"b=2", .read 0 .params
 end NonVacuity
 
 end Ombott.EnvCache
+
+/-! ## the accessors of `FormsDict` on `Request.query` / `.forms` / `.params`
+
+`FormsDict` (`ombott/request_pkg/helpers.py`) is what the handler actually holds when it reads a form: a `dict` plus
+`copy` and attribute access.  The functions are the ones the driver runs (`Drv/Helpers.lean`, `helpers fd …`); which
+accessors exist is the generated table (`Gen/Helpers.lean`). -/
+namespace Ombott.FormsDict
+open Py Ombott.Qs
+
+/-- **table tie** (`FormsDict`): the class body defines `__getattr__` and `copy` and nothing else — in particular no
+`getall` / `getunicode` / `decode` (a repeated key is a list VALUE here) —, the attribute names normal lookup finds (they
+shadow a form field of the same name) include every `dict` method, and for every accessor name of the `FormsDict` family
+the model's attribute tables say what the live classes say.  Adding, removing or renaming an accessor re-opens this. -/
+theorem formsdict_tables_pinned :
+    Gen.hpFormsDictOwn = ["__getattr__", "copy"] ∧
+    (∀ n ∈ ["get", "copy", "keys", "items", "values", "pop", "popitem", "update", "clear", "setdefault", "fromkeys",
+      "__len__", "__class__", "__dict__", "__getattr__"], n.toList ∈ fdAttrs) ∧
+    (∀ n ∈ ["getall", "getone", "getlist", "getunicode", "decode", "recode_unicode", "input_encoding", "_fix", "a", "name",
+      "__x__", "__", "__missing__"], n.toList ∉ fdAttrs) ∧
+    (∀ p ∈ Gen.hpAccessorProbes, fdAttrs.contains p.1.toList = p.2.1 ∧ cdAttrs.contains p.1.toList = p.2.2) := by
+  refine ⟨by decide, by decide +kernel, by decide +kernel, by decide +kernel⟩
+
+/-- **formsdict_get_after_roundtrip**: for every list of pairs with non-empty keys, encoded with `quote_plus` or `quote`
+and sent as the query string, as an urlencoded body, or read through `params`: item access, `get` (with any default) and
+`in` on the `FormsDict` the request hands out return, for a key that was sent, its value as a string if it was sent once
+and the list of its values in submission order otherwise; for a key that was not sent `KeyError`, the default, `False`.
+`keys()` are the distinct keys in order of first appearance and `copy()` is an equal dictionary.
+(`qs_roundtrip_query/forms/params` composed with the accessors.) -/
+theorem formsdict_get_after_roundtrip (plus : Bool) (ps : List (Str × Str)) (hk : ∀ p ∈ ps, p.1 ≠ []) (k : Str)
+    (dflt : Option Val) :
+    ∀ src ∈ [query (urlencodeWith plus ps), forms (asciiBytes (urlencodeWith plus ps)),
+        params (urlencodeWith plus ps) [], params [] (asciiBytes (urlencodeWith plus ps))],
+      ∃ d, src = .ok d ∧
+        fdGetitem d k = (if k ∈ ps.map (·.1) then .ok (valOf (valuesOf k ps)) else .error .keyError) ∧
+        fdGet d k dflt = (if k ∈ ps.map (·.1) then some (valOf (valuesOf k ps)) else dflt) ∧
+        fdContains d k = decide (k ∈ ps.map (·.1)) ∧
+        fdKeys d = firstKeys ps ∧ fdLen d = (firstKeys ps).length ∧ fdCopy d = d := by
+  intro src hsrc
+  have hall : src = .ok (group ps) := by
+    simp only [List.mem_cons, List.not_mem_nil, or_false] at hsrc
+    rcases hsrc with rfl | rfl | rfl | rfl
+    · exact qs_roundtrip_query plus ps hk
+    · exact qs_roundtrip_forms plus ps hk
+    · exact (qs_roundtrip_params plus ps hk).1
+    · exact (qs_roundtrip_params plus ps hk).2
+  exact ⟨group ps, hall, accessors_on_group ps k dflt⟩
+
+/-- **formsdict_attr_access**: `getattr(form, name)` on the `FormsDict` of the submitted pairs: a name normal attribute
+lookup finds (a `dict` method, `copy`, a dunder of the class — `fdAttrs`, generated) is that attribute and the form data is
+not consulted; any other dunder name is `AttributeError`; every other name is the field's value — a string, or the list
+for a repeated field — and `None` for a field that was not sent.  Stated on `Request.query` of the encoded pairs. -/
+theorem formsdict_attr_access (plus : Bool) (ps : List (Str × Str)) (hk : ∀ p ∈ ps, p.1 ≠ []) (name : Str) :
+    ∃ d, query (urlencodeWith plus ps) = .ok d ∧
+      fdGetattr d name =
+        (if name ∈ fdAttrs then .ok (.classAttr name)
+         else if isDunder name = true then .error .attributeError
+         else .ok (.value (if name ∈ ps.map (·.1) then some (valOf (valuesOf name ps)) else none))) := by
+  refine ⟨group ps, qs_roundtrip_query plus ps hk, ?_⟩
+  unfold fdGetattr
+  by_cases h1 : name ∈ fdAttrs
+  · simp [h1]
+  · have h1' : fdAttrs.contains name = false := by
+      rw [Bool.eq_false_iff]; intro h; exact h1 (List.contains_iff_mem.mp h)
+    simp only [h1', h1, Bool.false_eq_true, if_false]
+    by_cases h2 : isDunder name = true
+    · simp [h2]
+    · simp only [h2, if_false, Bool.false_eq_true]
+      rw [(accessors_on_group ps name none).2.1]
+
+/-- **formsdict_total**: for every query string and every body whatsoever the three dictionaries exist
+(`qs_never_raises`), and on ANY `FormsDict` item access raises nothing but `KeyError` (exactly for an absent key),
+attribute access nothing but `AttributeError` (exactly for a dunder name normal lookup does not find), and `get`,
+`in`, `keys`, `len`, `copy` are total functions. -/
+theorem formsdict_total (qs : Str) (body : Bytes) :
+    (∃ dq df dp, query qs = .ok dq ∧ forms body = .ok df ∧ params qs body = .ok dp) ∧
+    ∀ (d : Dict Val) (k : Str),
+      (∀ x, fdGetitem d k = .error x → x = .keyError ∧ fdContains d k = false) ∧
+      (∀ v, fdGetitem d k = .ok v → fdContains d k = true ∧ ∀ dflt, fdGet d k dflt = some v) ∧
+      (∀ x, fdGetattr d k = .error x → x = .attributeError ∧ isDunder k = true ∧ ¬ k ∈ fdAttrs) := by
+  obtain ⟨⟨dq, hq⟩, ⟨df, hf⟩, ⟨dp, hp⟩⟩ := qs_never_raises qs body
+  refine ⟨⟨dq, df, dp, hq, hf, hp⟩, ?_⟩
+  intro d k
+  refine ⟨?_, ?_, ?_⟩
+  · intro x hx
+    unfold fdGetitem at hx
+    unfold fdContains
+    cases hg : d.get? k with
+    | none => rw [hg] at hx; cases hx; exact ⟨rfl, rfl⟩
+    | some v => rw [hg] at hx; cases hx
+  · intro v hv
+    unfold fdGetitem at hv
+    unfold fdContains fdGet
+    cases hg : d.get? k with
+    | none => rw [hg] at hv; cases hv
+    | some w => rw [hg] at hv; cases hv; exact ⟨rfl, fun _ => rfl⟩
+  · intro x hx
+    unfold fdGetattr at hx
+    split at hx
+    · cases hx
+    · rename_i hna
+      split at hx
+      · rename_i hd
+        cases hx
+        exact ⟨rfl, hd, fun hm => hna (List.contains_iff_mem.mpr hm)⟩
+      · cases hx
+
+section NonVacuity
+/-- the pair list of the C18 examples (a repeated key, a field named like a `dict` method, a dunder-named field) meets the
+hypothesis … -/
+def exPairs : List (Str × Str) := [(cs!"a b", cs!"&="), (cs!"keys", cs!"k"), (cs!"a b", cs!"€"), (cs!"__x__", cs!"1"), (cs!"n", [])]
+example : ∀ p ∈ exPairs, p.1 ≠ [] := by decide
+/-- … and this is what the accessors answer on `Request.query` of its encoding: the list for the repeated key, the
+method for `keys` (the field is still there by item access), `AttributeError` for the dunder name, `None` for a missing one -/
+example : (query (urlencode exPairs)).toOption.map (fun d =>
+      (fdGetitem d cs!"a b", fdGetattr d cs!"a b", fdGetattr d cs!"n")) =
+    some (.ok (.many [cs!"&=", cs!"€"]), .ok (.value (some (.many [cs!"&=", cs!"€"]))), .ok (.value (some (.one [])))) := by
+  decide +kernel
+example : (query (urlencode exPairs)).toOption.map (fun d =>
+      (fdGetattr d cs!"keys", fdGetitem d cs!"keys", fdGetattr d cs!"__x__")) =
+    some (.ok (.classAttr cs!"keys"), .ok (.one cs!"k"), .error .attributeError) := by decide +kernel
+example : (query (urlencode exPairs)).toOption.map (fun d =>
+      (fdGetattr d cs!"zz", fdGetitem d cs!"zz", fdGet d cs!"zz" (some (.one cs!"dflt")))) =
+    some (.ok (.value none), .error .keyError, some (.one cs!"dflt")) := by decide +kernel
+end NonVacuity
+
+end Ombott.FormsDict
